@@ -75,7 +75,7 @@ func (c Case) losesNamesAtReopen() bool {
 
 // values of the i-th write: distinct powers of two (every subset has its own sum) in a non-monotone order
 // (so that max != last and min != first).
-var writeValues = []float64{4, 1, 16, 2, 8, 32}
+var writeValues = []float64{4, 1, 16, 0, 8, 32} // the fourth write carries 0: a slot that holds 0 is not an empty slot
 
 // slotOf maps a slot choice to the slot start relative to the base hour.
 func slotOf(name string) int64 {
@@ -149,6 +149,7 @@ type world struct {
 	flushedSinceOpen bool
 	healReopens      int64
 	timeouts         int // queries that did not complete within vbox.QueryTimeout
+	slowQueries      int // queries that timed out once and were asked again
 }
 
 const shardID = models.ShardID(1)
@@ -162,7 +163,9 @@ func openWorld(dir, prefix string) *world {
 		vevid.OpFailed("open engine: %v", err)
 	}
 	vbox.DupWait = 0 // one-response-per-request is not a clause of this property
-	vbox.QueryTimeout = 5 * time.Second
+	// a hung query is a verdict (the leaf never answers), a slow machine is not: generous limit, and a query that
+	// times out is asked once more before it counts (see world.query)
+	vbox.QueryTimeout = 45 * time.Second
 	day := time.Now().UTC().Truncate(24*time.Hour).UnixMilli() - 24*3600*1000
 	return &world{box: b, base: day + 10*3600*1000, prefix: prefix}
 }
@@ -294,6 +297,16 @@ func (w *world) apply(c Case, metric string) (*model, error) {
 
 // observed result of one query: "tags|item|ts-relative-to-base" -> value
 func (w *world) query(q Query, metric string) (map[string]float64, error) {
+	out, err := w.queryOnce(q, metric)
+	if err != nil && isTimeout(err) {
+		// wall-clock limits are no oracle: only a query that does not complete twice in a row is reported
+		w.slowQueries++
+		out, err = w.queryOnce(q, metric)
+	}
+	return out, err
+}
+
+func (w *world) queryOnce(q Query, metric string) (map[string]float64, error) {
 	r := ranges[q.Range]
 	tr := timeutil.TimeRange{Start: w.base + r.start, End: w.base + r.end}
 	t0 := time.Now()
